@@ -183,7 +183,7 @@ func c09Run(t *testing.T, p *world.PKI, cc cfgCase, clientSends bool, seq string
 		armed := false
 		if hold >= 0 {
 			cnt := 0
-			w.OnEmit = func(d *world.Datagram) {
+			w.SetOnEmit(func(d *world.Datagram) {
 				if d.Src != x.Addr || armed {
 					return
 				}
@@ -194,7 +194,7 @@ func c09Run(t *testing.T, p *world.PKI, cc cfgCase, clientSends bool, seq string
 					return
 				}
 				cnt++
-			}
+			})
 		}
 		var ops []*world.Op
 		w.Skew()
@@ -233,7 +233,7 @@ func c09Run(t *testing.T, p *world.PKI, cc cfgCase, clientSends bool, seq string
 				w.SettleLoose()
 			default:
 			}
-			w.OnEmit = nil
+			w.SetOnEmit(nil)
 		}
 		if !world.MutexBlocked() {
 			w.Settle()
